@@ -304,22 +304,66 @@ def _random_trace(arg):
 
 # ------------------------------------------------------------------ code -> spec, second thread
 
-class Preempt:
-    """run fn() in thread 1; before the k-th line event in the traced files thread 1 pauses, `other()` runs
-    in thread 2 to completion (if it blocks on a lock held by thread 1, thread 1 is advanced line by line
-    until thread 2 gets through), then thread 1 resumes.  k=None: only count line events."""
+class LockProxy:
+    """stands in for a lock of the object under test: tells the running Preempt controller when the second
+    thread has to wait for it, and who owns it (no time-outs needed to see that a thread is blocked)"""
 
-    def __init__(self, files, k, other, locks=()):
+    def __init__(self, inner):
+        self.inner = inner
+        self.owner = None
+        self.count = 0
+
+    def acquire(self, blocking=True, timeout=-1):
+        if not self.inner.acquire(False):
+            if not blocking:
+                return False
+            p = Preempt.current
+            if p is not None and threading.current_thread() is p.t2:
+                p.waiting_on = self
+                p.t2evt.set()
+            self.inner.acquire()
+            if p is not None and threading.current_thread() is p.t2:
+                p.waiting_on = None
+        self.owner = threading.get_ident()
+        self.count += 1
+        return True
+
+    def release(self):
+        self.count -= 1
+        if self.count == 0:
+            self.owner = None
+        self.inner.release()
+
+    __enter__ = acquire
+
+    def __exit__(self, *args):
+        self.release()
+
+    def locked(self):
+        return self.count > 0
+
+
+class Preempt:
+    """run fn() in thread 1; before the k-th line event in the traced files thread 1 pauses and `other()` runs
+    in thread 2 to completion; if thread 2 has to wait for a lock (LockProxy) owned by thread 1, thread 1 is
+    advanced line by line until it has released that lock, thread 2 goes on, and so forth; then thread 1
+    resumes.  k=None: only count line events.  Deterministic: exactly one thread runs at any time."""
+    current = None
+
+    def __init__(self, files, k, other):
         self.files = tuple(files)
-        self.locks = list(locks)
         self.k = k
         self.other = other
         self.n = 0
         self.fired = False
         self.stepping = False
+        self.finished = False
         self.blocked = 0
+        self.waiting_on = None
+        self.t2 = None
         self.paused = threading.Event()
         self.resume = threading.Event()
+        self.t2evt = threading.Event()     # thread 2 finished or started waiting for a lock
         self.t2done = threading.Event()
         self.errors = []
 
@@ -352,63 +396,40 @@ class Preempt:
         except BaseException as e:   # noqa
             self.errors.append(repr(e))
         self.t2done.set()
-
-    def _held(self):
-        """does thread 1 (paused) hold one of the locks thread 2 may need?"""
-        for lock in self.locks:
-            if lock.acquire(False):
-                lock.release()
-            else:
-                return True
-        return False
-
-    def _t2_blocked(self, t2):
-        """thread 2 did not finish at once although nothing else runs: it waits for a lock"""
-        if self.t2done.wait(0.04):
-            return False
-        pos = None
-        for _ in range(200):
-            f = sys._current_frames().get(t2.ident)
-            new = (id(f), f.f_lasti) if f is not None else None
-            if self.t2done.wait(0.01):
-                return False
-            if new == pos:
-                return True
-            pos = new
-        return True
+        self.t2evt.set()
 
     def run(self, fn):
-        self.finished = False
+        Preempt.current = self
         t1 = threading.Thread(target=self._t1, args=(fn,), daemon=True)
         t1.start()
         self.paused.wait()
-        t2 = None
         while not self.finished:
             self.paused.clear()
-            held = self._held()
-            if t2 is None:
-                t2 = threading.Thread(target=self._t2, daemon=True)
-                t2.start()
-            if not held:
-                blocked = not self.t2done.wait(20)    # nothing to wait for: runs to completion
-                if blocked:
-                    self.errors.append('thread 2 does not finish')
-                    self.stepping = False
-                    self.resume.set()
-                    break
-            else:
-                blocked = self._t2_blocked(t2)
-            self.stepping = blocked       # thread 2 waits for a lock of thread 1: advance one line
-            self.blocked += blocked
+            if self.t2 is None:
+                self.t2 = threading.Thread(target=self._t2, daemon=True)
+                self.t2.start()
+            w = self.waiting_on
+            if w is None or w.owner != t1.ident:
+                # thread 2 is runnable: let it run until it is done or has to wait for a lock
+                if not self.t2evt.wait(20):
+                    self.errors.append('thread 2 neither finishes nor waits for a known lock')
+                    self.t2done.set()
+                self.t2evt.clear()
+                if not self.t2done.is_set():
+                    self.blocked += 1
+            self.stepping = not self.t2done.is_set()
             self.resume.set()
-            if not blocked:
+            if not self.stepping:
                 break
-            self.paused.wait()
+            if not self.paused.wait(20):
+                self.errors.append('deadlock: thread 1 does not get on while thread 2 waits')
+                break
         t1.join(10)
-        if t2 is not None:
-            t2.join(10)
-        if t1.is_alive() or (t2 is not None and t2.is_alive()):
+        if self.t2 is not None:
+            self.t2.join(10)
+        if t1.is_alive() or (self.t2 is not None and self.t2.is_alive()):
             self.errors.append('deadlock')
+        Preempt.current = None
         return self.n
 
 
@@ -431,7 +452,8 @@ def _conc_scenario(seed):
                 else:
                     w.post(_rand_task(rnd))
             task = task_stop() if kind == 'stop' else task_start(rnd.choice(T_START), {'x': '3', 'y': '2'}, 'K')
-            p = Preempt([SM_FILE], k, lambda: w.post(task), [w.sm._lock])
+            w.sm._lock = LockProxy(w.sm._lock)
+            p = Preempt([SM_FILE], k, lambda: w.post(task))
             w.events.append({'ev': 'begin'})
             total = p.run(w.sm.cycle)
             if p.errors:
@@ -515,15 +537,17 @@ class HSWorld:
         self.plan = plan
         self.events = []
         self.count = {}
+        self.requesting = None
         world = self
 
         class Disp:
             def announce_update(self, moduleobj, pobj):
                 if pobj.name == 'status':
                     if pobj.readerror:
-                        world.events.append({'ev': 'update', 'busy': False, 'st': 'readerror'})
-                    else:
-                        world.events.append(dict(ev='update', **world.stat(pobj.value)))
+                        world.events.append({'ev': 'update', 'busy': False, 'st': 'readerror', 'own': False})
+                    else:   # own: sent by the thread that is inside start_machine()
+                        world.events.append(dict(ev='update', own=world.requesting == threading.get_ident(),
+                                                 **world.stat(pobj.value)))
 
         class Srv:
             dispatcher = Disp()
@@ -581,8 +605,11 @@ class HSWorld:
         mod = self.mod
         if op['op'] == 'start':
             kw = {'cleanup': mod.my_cleanup} if op['c'] == 'K' else {}
-            self.events.append({'ev': 'starting'})
-            mod.start_machine(getattr(mod, op['s']), **kw)
+            outer, self.requesting = self.requesting, threading.get_ident()
+            try:
+                mod.start_machine(getattr(mod, op['s']), **kw)
+            finally:
+                self.requesting = outer
             self.events.append({'ev': 'started'})
         elif op['op'] == 'stop':
             active = mod._state_machine.is_active
@@ -655,8 +682,10 @@ def _hs_conc_scenario(seed):
                 w.op(_hs_rand_op(rnd, 0.75))
             op2 = {'op': 'start', 's': rnd.choice(HS_STATES[:3]), 'c': 'default'} if kind == 'start' \
                 else {'op': 'stop', 'st': HS_STOPPED[1]}
-            p = Preempt(HS_FILES, k, lambda: w.op(op2, nested=True),
-                        [w.mod._state_machine._lock, w.mod.accessLock, w.mod.updateLock])
+            w.mod._state_machine._lock = LockProxy(w.mod._state_machine._lock)
+            w.mod.accessLock = LockProxy(w.mod.accessLock)
+            w.mod.updateLock = LockProxy(w.mod.updateLock)
+            p = Preempt(HS_FILES, k, lambda: w.op(op2, nested=True))
             total = p.run(w.mod.doPoll)
             if p.errors:
                 w.events.append({'ev': 'raised', 'exc': p.errors[0]})
